@@ -338,15 +338,11 @@ def finding_key(job, reason, runner=None):
             return key
         return "panic:unknown:%s:%s" % (tv, msg_class(lines[0] if lines else ""))
     if reason in ("StackOverflow", "OutOfMemory", "Abort", "Timeout"):
-        ctx = "none"
-        for l in lines:
-            if any(mk in l for mk in MARKS):
-                break
-            if l.startswith("warning") or l.startswith("error"):
-                ctx = msg_class(l)
-        if ctx == "none" and job.gen.get("class", "").startswith(("grammar", "illformed", "mapfile")):
-            ctx = job.gen.get("label", job.gen.get("defect", job.gen["class"]))
-            ctx = re.sub(r"\d+", "N", ctx)
+        # no location is available; the diagnostics printed before the crash vary with the input, so the
+        # identity is the command (plus, for generated texts, the generator's label with numbers removed)
+        ctx = "any"
+        if job.gen.get("class", "").startswith(("grammar", "illformed", "mapfile")):
+            ctx = re.sub(r"\d+", "N", job.gen.get("label", job.gen.get("defect", job.gen["class"])))
         return "%s:%s:%s" % (reason, tv, ctx)
     name = "in_%06d.%s" % (job.jid, job.ext) if job.jid else None
     if reason == "ErrorDoesNotNameFile":
